@@ -585,7 +585,7 @@ func runFtpPart(o hx.Opts, r *hx.Rand, w window, out, header string, all []strin
 				ob, crash := runFtp(w, cwdOps)
 				add("ftp", cwdOps, ob, crash)
 			}
-			hx.Write(o, "C11", "ftp", header+"Import FtpCheck.\n", "case", cases, dist, nil, 100)
+			hx.Write(o, "C11", "ftp", header+"Import FtpCheck.\n", "case", cases, dist, nil, 40)
 			return
 		}
 	}
@@ -623,5 +623,5 @@ func runFtpPart(o hx.Opts, r *hx.Rand, w window, out, header string, all []strin
 		ob, crash := runFtp(w, ops)
 		add("ftp", ops, ob, crash)
 	}
-	hx.Write(o, "C11", "ftp", header+"Import FtpCheck.\n", "case", cases, dist, nil, 100)
+	hx.Write(o, "C11", "ftp", header+"Import FtpCheck.\n", "case", cases, dist, nil, 40)
 }
